@@ -3,6 +3,7 @@ import SC.Properties.C09
 import SC.Proofs.RIndex
 import SC.Proofs.RCountByte
 import SC.Proofs.RLastIndex
+import SC.Proofs.RIndexAny6
 /-!
 # C07 — strcase and bytcase are the same function on the same bytes
 
@@ -51,6 +52,13 @@ theorem count_cut_parity (cfg : A.Cfg) (s sub : Bytes) :
 /-- LastIndex: both packages refine the same specification (the pinned tree differed here: finding D7) -/
 theorem lastIndex_parity (cfg : A.Cfg) (s sub : Bytes) : A.LastIndex (str cfg) s sub = A.LastIndex (byt cfg) s sub := by
   rw [A.LastIndex_eq, A.LastIndex_eq]
+
+/-- IndexAny / LastIndexAny / ContainsAny: both packages refine the same specification -/
+theorem indexAny_parity (cfg : A.Cfg) (s chars : Bytes) :
+    A.IndexAny (str cfg) s chars = A.IndexAny (byt cfg) s chars ∧
+    A.LastIndexAny (str cfg) s chars = A.LastIndexAny (byt cfg) s chars ∧
+    A.ContainsAny (str cfg) s chars = A.ContainsAny (byt cfg) s chars := by
+  simp only [A.IndexAny_eq, A.LastIndexAny_eq, A.ContainsAny_eq, and_self]
 
 example : A.Compare (str {}) [0xFF, 0x41] [0xEF, 0xBF, 0xBD, 0x61] = 0 := by decide +kernel
 end C07
